@@ -139,7 +139,10 @@ def r121(ctx, rid="R12.1"):
             # the receiver by its variable name, the spec by its value (a `let fee_spec = policy.fee_velocity_control()` in between
             # must not matter)
             recv, spec = render(fvn.expr(c.args[0])), render(fnview(ctx, fb).expr(c.args[1]))
-            is_fee = "fee_velocity_control" in recv
+            # which control it is: by the NodeState field the receiver was copied from (or is), else by its variable name
+            src = [x[3] for x in subexprs(fnview(ctx, fb).expr(c.args[0]))
+                   if x[0] == "field" and x[3] in ("velocity_control", "fee_velocity_control")]
+            is_fee = (src[0] == "fee_velocity_control") if len(set(src)) == 1 else ("fee_velocity_control" in recv)
             ok = ("Policy::fee_velocity_control(" in spec) if is_fee else ("Policy::global_velocity_control(" in spec)
             ctx.ob(rid, ok, f"{fnm}/update_spec/{'fee' if is_fee else 'payment'}",
                    f"`{fnm}` re-specs the {'fee' if is_fee else 'payment'} velocity control `{recv[-40:]}` with `{spec[:70]}`: a spec of the "
@@ -259,7 +262,7 @@ def r123(ctx, rid="R12.3"):
            "VelocityControl::insert can add the amount to the bucket although velocity + amount > limit",
            where=f"{b.file}:{inc[0][1]}", sample={"scenario": "current_velocity + velocity_msat > limit", "edges_cut": len(cut)})
     # in that scenario the function returns false only
-    rets = [r for r in fv.return_sites() if r["block"] in live]
+    rets = [r for r in fv.return_sites() if R.site_block(r) in live]
     ctx.ob(rid, all(r["kind"] == "false" for r in rets) and rets, f"{b.name}/limit-returns-false",
            f"insert returns {[r['how'] for r in rets]} when the limit would be exceeded", where=f"{b.file}:{b.line}",
            sample="returns false")
